@@ -265,6 +265,10 @@ class Evaluator:
                 if isinstance(obj, str):
                     return any(getattr(x, '__name__', None) == 'str' for x in cs)
                 raise Unsupported('isinstance operand')
+            if f.id == 'enumerate' and len(args) in (1, 2):
+                return list(enumerate(*args))
+            if f.id in ('list', 'tuple') and len(args) == 1 and isinstance(args[0], (list, tuple)):
+                return list(args[0]) if f.id == 'list' else tuple(args[0])
             if f.id in ('any', 'all'):
                 vals = [self.truth(x) for x in args[0]]
                 return any(vals) if f.id == 'any' else all(vals)
@@ -449,6 +453,8 @@ def run_function(ev, fnode, env, max_steps=200):
             base = ev.ev(t.value, env)
             if isinstance(base, Obj):
                 setattr(base, t.attr, v)
+            elif isinstance(base, AbsToken) and t.attr == 'value' and getattr(ev, 'effects', False):
+                base.value = v
             else:
                 raise Unsupported('attribute store')
         elif isinstance(t, ast.Tuple):
@@ -466,4 +472,7 @@ def run_function(ev, fnode, env, max_steps=200):
         block(body, env)
     except _Return as r:
         return r.v
+    except _Continue:
+        # the body of a loop iteration was evaluated on its own: `continue` ends it
+        return None
     return None
